@@ -385,6 +385,7 @@ func (x *Exec) oblige(st *State, name, kind, text string, goal *Term) {
 	o := &Obligation{Name: name, Func: x.key, Kind: kind, Text: text, Goal: goal, Pos: x.eng.prog.Fset.Position(x.curPos)}
 	o.Assumptions = append(append([]*Term{}, st.facts...), st.reach)
 	o.Opaque = x.con.Opaque
+	o.Timeout = x.con.Timeout
 	x.attachValues(o)
 	x.obls = append(x.obls, o)
 }
@@ -659,6 +660,11 @@ func (x *Exec) noteSlice(st *State, v Val) {
 		max := c.BV(64, new(big.Int).Lsh(big.NewInt(1), 62))
 		f = c.And(f, c.bvcmp("bvsle", v.Off, max), c.bvcmp("bvsle", v.Cap, max))
 	}
+	// the backing array of a slice reachable from the state exists (nil or allocated)
+	if v.Arr.kind != kIntLit {
+		al := x.heapGet(st, "alloc", SArr(SInt, SBool))
+		f = c.And(f, c.Or(c.Eq(v.Arr, c.Int(0)), c.Select(al, embRoot(v.Arr))))
+	}
 	x.assumeGlobal(st, f)
 }
 
@@ -756,9 +762,40 @@ func (x *Exec) loadField(st *State, r *Term, structKey, field string, ft types.T
 		return v
 	}
 	s := x.scalarSort(ft)
+	x.rangeAxiom(st, base, SArr(SInt, s), ft, false)
 	t := x.c.Select(x.heapGet(st, base, SArr(SInt, s)), r)
 	x.noteRead(st, t, ft)
 	return Val{Typ: ft, T: t}
+}
+
+// rangeAxiom: in math mode every element of the entry value of an integer-typed heap component
+// lies in its type's range (needed for reads under quantifiers, which get no per-read fact).
+func (x *Exec) rangeAxiom(st *State, comp string, srt Sort, elemT types.Type, twoLevel bool) {
+	if x.mode != "math" || x.specMode {
+		return
+	}
+	if _, _, ok := intInfo(elemT); !ok {
+		return
+	}
+	if _, exists := st.heap[comp]; exists {
+		return
+	}
+	key := "range:" + comp
+	if x.globalInit[key] {
+		return
+	}
+	x.globalInit[key] = true
+	h := x.heapGet(st, comp, srt)
+	c := x.c
+	r := c.Bound("r", SInt)
+	if !twoLevel {
+		e := c.Select(h, r)
+		x.assumeGlobal(st, c.Forall([]*Term{r}, x.inRange(e, elemT), []*Term{e}))
+		return
+	}
+	i := c.Bound("i", x.idxSort())
+	e := c.Select(c.Select(h, r), i)
+	x.assumeGlobal(st, c.Forall([]*Term{r, i}, x.inRange(e, elemT), []*Term{e}))
 }
 
 func (x *Exec) storeField(st *State, r *Term, structKey, field string, ft types.Type, v Val) {
@@ -864,13 +901,10 @@ func (x *Exec) loadElem(st *State, arr, idx *Term, el types.Type) Val {
 		x.noteSlice(st, v)
 		return v
 	}
+	x.rangeAxiom(st, memComp(el), x.memSort(el), el, true)
 	m := x.heapGet(st, memComp(el), x.memSort(el))
 	t := x.c.Select(x.c.Select(m, arr), idx)
-	if w, _, ok := intInfo(el); ok && w < 64 || !ok {
-		x.noteRead(st, t, el)
-	} else {
-		x.noteRead(st, t, el)
-	}
+	x.noteRead(st, t, el)
 	return Val{Typ: el, T: t}
 }
 
